@@ -392,10 +392,108 @@ func c05escape(rc *core.RC, d *dispatchSite) {
 	if cc == nil {
 		return
 	}
-	rc.Check(hexTested(rc, info, cc, 0), d.key("u-hex-digits"), cc.Pos(), "the \\u clause (or a function it calls) range-tests the four digits against 0-9 a-f A-F; without it non-hex digits are read as 0")
+	if acc, where, ok := hexAccepted(rc, info, cc, 0, map[*types.Func]bool{}); ok {
+		var extra, missing []int
+		for b := 0; b < 256; b++ {
+			isHex := (b >= '0' && b <= '9') || (b >= 'a' && b <= 'f') || (b >= 'A' && b <= 'F')
+			if acc[b] && !isHex {
+				extra = append(extra, b)
+			}
+			if !acc[b] && isHex {
+				missing = append(missing, b)
+			}
+		}
+		if len(extra) == 0 && len(missing) == 0 {
+			rc.OK(d.key("u-hex-digits"), cc.Pos(), "the digit test at %s lets exactly 0-9 a-f A-F through (evaluated for all 256 byte values)", rc.P.Pos(where))
+		} else {
+			rc.Bad(d.key("u-hex-digits"), where, "the digit test of the \\u escape accepts %s besides the hexadecimal digits and rejects %s of them (evaluated for all 256 byte values): bytes that are not hexadecimal digits are read as digits", orNone(core.FmtBytes(extra)), orNone(core.FmtBytes(missing)))
+		}
+	} else {
+		rc.Check(hexTested(rc, info, cc, 0), d.key("u-hex-digits"), cc.Pos(), "the \\u clause (or a function it calls) range-tests the four digits against 0-9 a-f A-F; without it non-hex digits are read as 0")
+	}
 }
 
 // hexTested: the node, or a module function it calls (up to four levels), compares bytes with all of '0' '9' 'a' 'f' 'A' 'F'.
+// hexAccepted looks, in n and in the module functions n calls, for an if statement that leaves through a
+// return when a byte variable fails a test, where the bytes that pass include 0, 9, a and f but neither
+// the backslash nor u (that is: a digit test, not a delimiter test). It returns the set of passing bytes.
+func hexAccepted(rc *core.RC, info *types.Info, n ast.Node, depth int, seen map[*types.Func]bool) (acc [256]bool, where token.Pos, ok bool) {
+	bp := &core.BytePred{P: rc.P}
+	var callees []*types.Func
+	ast.Inspect(n, func(x ast.Node) bool {
+		if ok {
+			return false
+		}
+		switch e := x.(type) {
+		case *ast.CallExpr:
+			if f := core.Callee(info, e); f != nil && f.Pkg() != nil && strings.HasPrefix(f.Pkg().Path(), core.ModPath) {
+				callees = append(callees, f)
+			}
+		case *ast.IfStmt:
+			leaves := false
+			for _, st := range e.Body.List {
+				if _, isRet := st.(*ast.ReturnStmt); isRet {
+					leaves = true
+				}
+			}
+			if !leaves {
+				return true
+			}
+			// the single byte-typed local the condition depends on
+			var v types.Object
+			many := false
+			ast.Inspect(e.Cond, func(k ast.Node) bool {
+				id, isId := k.(*ast.Ident)
+				if !isId {
+					return true
+				}
+				o, isVar := info.Uses[id].(*types.Var)
+				if !isVar || o.IsField() || o.Pkg() == nil || o.Parent() == o.Pkg().Scope() {
+					return true
+				}
+				if b, isB := o.Type().Underlying().(*types.Basic); isB && (b.Kind() == types.Uint8 || b.Kind() == types.Int32) {
+					if v != nil && v != o {
+						many = true
+					}
+					v = o
+				}
+				return true
+			})
+			if v == nil || many {
+				return true
+			}
+			var a [256]bool
+			for b := 0; b < 256; b++ {
+				bp.Steps = 0
+				r, evalOK := bp.EvalBool(info, e.Cond, core.Bind(v, int64(b)))
+				if !evalOK {
+					return true
+				}
+				a[b] = !r
+			}
+			if a['0'] && a['9'] && a['a'] && a['f'] && !a['\\'] && !a['u'] && !a['"'] {
+				acc, where, ok = a, e.Cond.Pos(), true
+			}
+		}
+		return true
+	})
+	if ok || depth >= 4 {
+		return
+	}
+	for _, f := range callees {
+		if seen[f] {
+			continue
+		}
+		seen[f] = true
+		if fd := rc.P.DeclOf(f); fd != nil && fd.Body != nil {
+			if a, w, k := hexAccepted(rc, rc.P.Info(fd), fd.Body, depth+1, seen); k {
+				return a, w, true
+			}
+		}
+	}
+	return
+}
+
 func hexTested(rc *core.RC, info *types.Info, n ast.Node, depth int) bool {
 	seen := map[int64]bool{}
 	var callees []*types.Func
@@ -437,7 +535,7 @@ func hexTested(rc *core.RC, info *types.Info, n ast.Node, depth int) bool {
 
 // A number-scanning loop is a loop whose condition or body tests
 // floatTable[...] / numTable[...]. The token it delimits must reach
-// strconv.ParseFloat / parseInt / parseUint (directly, or by being returned to
+// validNumber / parseInt / parseUint (directly, or by being returned to
 // a caller that does) before the function reports success.
 func c05r2(rc *core.RC) {
 	p := rc.P
@@ -452,7 +550,8 @@ func c05r2(rc *core.RC) {
 		rc.Unknown("decoder/number-tables", token.NoPos, "floatTable/numTable not found")
 		return
 	}
-	validators := map[string]bool{"strconv.ParseFloat": true, "decoder.intDecoder.parseInt": true, "decoder.uintDecoder.parseUint": true, "strconv.ParseInt": true, "strconv.ParseUint": true}
+	// strconv.ParseFloat is not a validator of the JSON grammar: it accepts "01", "1.", "-.5", "1.e2"
+	validators := map[string]bool{"decoder.validNumber": true, "decoder.intDecoder.parseInt": true, "decoder.uintDecoder.parseUint": true, "strconv.ParseInt": true, "strconv.ParseUint": true}
 	// functions that scan
 	scans := map[*ast.FuncDecl][]ast.Node{}
 	for _, fd := range p.Funcs("decoder") {
@@ -559,14 +658,75 @@ func c05r2(rc *core.RC) {
 			}
 			continue
 		}
-		rc.Bad(key, scans[fd][0].Pos(), "a run of number characters (floatTable/numTable) is consumed and the function reports success without the token ever reaching strconv.ParseFloat/parseInt/parseUint: malformed numbers such as 1e+-.5 are accepted here")
+		rc.Bad(key, scans[fd][0].Pos(), "a run of number characters (floatTable/numTable) is consumed and the function reports success without the token ever reaching validNumber/parseInt/parseUint: malformed numbers such as 1e+-.5 are accepted here")
+	}
+}
+
+// c05r6 (encoder side of the number grammar): the encoder's number scanner (Compact, Indent, Valid, marshaler output) and json.Number
+// values reach the encoder's validNumber, and the two copies of validNumber are the same function.
+func c05r6(rc *core.RC) {
+	p := rc.P
+	epk := p.Pkg("encoder")
+	ft := epk.Types.Scope().Lookup("floatTable")
+	n := 0
+	for _, fd := range p.Funcs("encoder") {
+		if fd.Body == nil {
+			continue
+		}
+		info := p.Info(fd)
+		scans, valid := false, false
+		ast.Inspect(fd.Body, func(m ast.Node) bool {
+			switch x := m.(type) {
+			case *ast.IndexExpr:
+				if ft != nil && core.ObjOf(info, x.X) == ft {
+					scans = true
+				}
+			case *ast.CallExpr:
+				if core.CalleeName(info, x) == "encoder.validNumber" {
+					valid = true
+				}
+			}
+			return true
+		})
+		isNumberAppender := fd.Name.Name == "AppendNumber"
+		if !scans && !isNumberAppender {
+			continue
+		}
+		n++
+		fn := p.FuncName(fd)
+		rc.Touch(fn)
+		if valid {
+			rc.OK(fn+"/number-scan", fd.Pos(), "the number text is checked by validNumber before it is written")
+		} else {
+			rc.Bad(fn+"/number-scan", fd.Pos(), "a number is written to the output after at most a character-set test or strconv.ParseFloat: texts such as 01, 1., -.5, +- pass (encoding/json rejects them)")
+		}
+	}
+	if n < 2 {
+		rc.Unknown("encoder/number-writers", token.NoPos, "found %d number-writing functions in package encoder (compactNumber and AppendNumber expected)", n)
+	}
+	a, b := p.Func("decoder", "validNumber"), p.Func("encoder", "validNumber")
+	if a == nil || b == nil {
+		rc.Bad("validNumber/twins", token.NoPos, "validNumber is missing in package decoder or encoder: number tokens are validated by strconv.ParseFloat at most")
+		return
+	}
+	na := core.NormalStmts(p.Fset, p.Info(a), a.Body.List, core.NormOpts{})
+	nb := core.NormalStmts(p.Fset, p.Info(b), b.Body.List, core.NormOpts{})
+	if i := core.FirstDiff(na, nb); i >= 0 {
+		da, db := "<end>", "<end>"
+		if i < len(na) {
+			da = na[i]
+		}
+		if i < len(nb) {
+			db = nb[i]
+		}
+		rc.Bad("validNumber/twins", a.Pos(), "decoder.validNumber and encoder.validNumber differ at statement %d: `%s` vs `%s`; what Unmarshal accepts as a number and what Valid/Compact accept would differ", i+1, da, db)
+	} else {
+		rc.OK("validNumber/twins", a.Pos(), "the decoder's and the encoder's number grammar validators are the same function (%d statements)", len(na))
 	}
 }
 
 // functions that deliberately keep a number token as text (each confirmed by reading).
-var textConsumers = map[string]bool{
-	"decoder.(*Stream).Token": true, // parses with ParseFloat or returns json.Number
-}
+var textConsumers = map[string]bool{}
 
 // ---- C05.R3 top-level trailing check ----
 
@@ -793,4 +953,11 @@ func c05r5(rc *core.RC) {
 	if n < 8 {
 		rc.Unknown("decoder/separator-dispatches", token.NoPos, "found %d container separator dispatches (confirmed: array, slice ×3 modes, compact/indent object/array)", n)
 	}
+}
+
+func orNone(s string) string {
+	if s == "" {
+		return "none"
+	}
+	return s
 }
